@@ -150,3 +150,26 @@ Definition blocking_returns_composed_partial := blocking_progress_composed.
 
 Print Assumptions tdlink.
 Print Assumptions blocking_progress_composed.
+
+(** C11 over the composition (the part of item (3) that is finished): in a persistent Pub/Sub a
+    registered subscription has, for every message of its topic whose snapshot was taken, exactly
+    one Sender in the registry AND the corresponding Sender thread in its own instance - no
+    glue hypothesis any more (compare ReplayCompose.replay_exactly_once_composed, where the glue
+    was a Permutation hypothesis).  What that thread does is SubOnce / SubLive. *)
+Theorem replay_sender_in_instance pers blk fx caps fa cls x k p :
+  let c := crun (cinit pers blk fx caps fa) cls in
+  persistent (cg c) = true -> In x (subs (cg c) k) -> In p (sent (cg c)) -> ptopic (cg c) p = k ->
+  nsenders (cg c) p x = 1 /\ Sub.thr (ci c x) p <> Sub.SNone
+  /\ Sub.srun (Sub.sinit (caps x) fa) (sub_labels x (cinit pers blk fx caps fa) cls) = ci c x.
+Proof.
+  intros c Hp Hx Hs Ht.
+  assert (Hg : cg c = grun (ginit pers blk fx) (reg_labels (cinit pers blk fx caps fa) cls))
+    by apply proj_reg.
+  assert (H1 : nsenders (cg c) p x = 1).
+  { rewrite Hg in *. now apply (persistent_exactly_one pers blk fx _ x k p). }
+  split; [exact H1|]. split.
+  - apply (link_sender pers blk fx caps fa cls x p). apply scnt_pos_In.
+    fold c. rewrite <- nsenders_scnt. lia.
+  - symmetry. apply proj_sub.
+Qed.
+Print Assumptions replay_sender_in_instance.
